@@ -259,6 +259,23 @@ func genScenario(cfg ScenarioCfg) *rapid.Generator[Scenario] {
 			sc.RandMaxHidden = rapid.IntRange(1, 5).Draw(t, "rand max hidden")
 			sc.RandRecurrent = rapid.Bool().Draw(t, "rand recurrent")
 			sc.RandLinkProb = rapid.Float64Range(0.5, 1).Draw(t, "rand link prob")
+			if rapid.IntRange(0, 5).Draw(t, "big random genomes") == 0 {
+				// more than 32 nodes per random genome (a connection matrix of more than 1024 cells); short histories of a
+				// small population keep the cost down
+				sc.RandIn = rapid.IntRange(8, 20).Draw(t, "rand in (big)")
+				sc.RandOut = rapid.IntRange(2, 6).Draw(t, "rand out (big)")
+				sc.RandMaxHidden = rapid.IntRange(10, 30).Draw(t, "rand max hidden (big)")
+				if sc.Opts.PopSize > 10 {
+					sc.Opts.PopSize = imax(cfg.MinPop, 4+sc.Opts.PopSize%7)
+					if sc.Opts.BabiesStolen > sc.Opts.PopSize/2 {
+						sc.Opts.BabiesStolen = sc.Opts.PopSize / 2
+					}
+				}
+				if sc.Epochs > 5 {
+					sc.Epochs = 1 + sc.Epochs%5
+				}
+				sc.Switch, sc.Warm = nil, nil
+			}
 		}
 		return sc
 	})
@@ -387,7 +404,16 @@ func overwriteExported(dst, src *neat.Options) {
 	}
 }
 
+// preparedExecutor, when set, is handed out by the next newExecutor call for the sequential executor (C17: an executor object
+// that served unrelated work before the run started)
+var preparedExecutor genetics.PopulationEpochExecutor
+
 func newExecutor(opts *neat.Options) genetics.PopulationEpochExecutor {
+	if preparedExecutor != nil && opts.EpochExecutorType != neat.EpochExecutorTypeParallel {
+		e := preparedExecutor
+		preparedExecutor = nil
+		return e
+	}
 	if opts.EpochExecutorType == neat.EpochExecutorTypeParallel {
 		return &genetics.ParallelPopulationEpochExecutor{}
 	}
